@@ -31,7 +31,8 @@ Ids == 1..16
 Thrs == 0..9
 
 VARIABLES l, cap, batch,
-          st,        \* st[r]: 0 closed, 1 lock executing, 2 open, 3 unlock executing
+          st,        \* st[r]: 0 closed, 1 outermost lock executing, 2 open, 3 outermost unlock executing
+          dep,       \* dep[r]: nesting depth (locks returned minus unlocks called); the region is that of the OUTERMOST pair
           gen,       \* gen[r]: how often region r was entered
           openAt,    \* openAt[i]: region instances <<r, gen>> open when retire(i) was called
           pend,      \* calls executing: {<<thread, op, x>>}
@@ -39,37 +40,39 @@ VARIABLES l, cap, batch,
           cnt,       \* invocations of reclaimer i
           joinable, stopping, rds, beforeStop,
           bad
-mvars == <<l, cap, batch, st, gen, openAt, pend, returned, cnt, joinable, stopping, rds, beforeStop, bad>>
+mvars == <<l, cap, batch, st, dep, gen, openAt, pend, returned, cnt, joinable, stopping, rds, beforeStop, bad>>
 
 Fresh(e) ==
   /\ cap' = e.cap /\ batch' = e.batch
-  /\ st' = [r \in Regs |-> 0] /\ gen' = [r \in Regs |-> 0] /\ openAt' = [i \in Ids |-> {}]
+  /\ st' = [r \in Regs |-> 0] /\ dep' = [r \in Regs |-> 0] /\ gen' = [r \in Regs |-> 0] /\ openAt' = [i \in Ids |-> {}]
   /\ pend' = {} /\ returned' = {} /\ cnt' = [i \in Ids |-> 0]
   /\ joinable' = TRUE /\ stopping' = FALSE /\ rds' = FALSE /\ beforeStop' = {}
 
 MInit ==
   /\ l = 2 /\ Tr[1].k = "reset"
   /\ cap = Tr[1].cap /\ batch = Tr[1].batch
-  /\ st = [r \in Regs |-> 0] /\ gen = [r \in Regs |-> 0] /\ openAt = [i \in Ids |-> {}]
+  /\ st = [r \in Regs |-> 0] /\ dep = [r \in Regs |-> 0] /\ gen = [r \in Regs |-> 0] /\ openAt = [i \in Ids |-> {}]
   /\ pend = {} /\ returned = {} /\ cnt = [i \in Ids |-> 0]
   /\ joinable = TRUE /\ stopping = FALSE /\ rds = FALSE /\ beforeStop = {}
   /\ bad = {}
   /\ TLCSet(1, 1)
 
-Same(vs) == UNCHANGED vs
+Same(vs) == UNCHANGED vs /\ UNCHANGED dep
 Bad(b, name) == IF b THEN bad \cup {name} ELSE bad
 
 MCall(e) ==
   /\ pend' = pend \cup {<<e.t, e.op, e.x>>}
   /\ CASE e.op = "enter" ->
-            /\ st' = [st EXCEPT ![e.x] = 1]
+            /\ st' = [st EXCEPT ![e.x] = IF dep[e.x] = 0 THEN 1 ELSE @]
             /\ rds' = (rds \/ stopping)
             /\ bad' = bad
-            /\ Same(<<cap, batch, gen, openAt, returned, cnt, joinable, stopping, beforeStop>>)
+            /\ UNCHANGED <<cap, batch, dep, gen, openAt, returned, cnt, joinable, stopping, beforeStop>>
        [] e.op = "leave" ->
-            /\ st' = [st EXCEPT ![e.x] = 3]
+            \* only the unlock matching the outermost lock leaves the region
+            /\ st' = [st EXCEPT ![e.x] = IF dep[e.x] <= 1 THEN 3 ELSE @]
+            /\ dep' = [dep EXCEPT ![e.x] = IF @ > 0 THEN @ - 1 ELSE 0]
             /\ bad' = bad
-            /\ Same(<<cap, batch, gen, openAt, returned, cnt, joinable, stopping, rds, beforeStop>>)
+            /\ UNCHANGED <<cap, batch, gen, openAt, returned, cnt, joinable, stopping, rds, beforeStop>>
        [] e.op = "retire" ->
             /\ openAt' = [openAt EXCEPT ![e.x] = {<<r, gen[r]>> : r \in {y \in Regs : st[y] = 2}}]
             /\ bad' = bad
@@ -85,11 +88,12 @@ MRet(e) ==
   /\ pend' = pend \ {<<e.t, e.op, e.x>>}
   /\ CASE e.op = "enter" ->
             /\ st' = [st EXCEPT ![e.x] = 2]
-            /\ gen' = [gen EXCEPT ![e.x] = @ + 1]
+            /\ dep' = [dep EXCEPT ![e.x] = @ + 1]
+            /\ gen' = [gen EXCEPT ![e.x] = IF dep[e.x] = 0 THEN @ + 1 ELSE @]
             /\ bad' = bad
-            /\ Same(<<cap, batch, openAt, returned, cnt, joinable, stopping, rds, beforeStop>>)
+            /\ UNCHANGED <<cap, batch, openAt, returned, cnt, joinable, stopping, rds, beforeStop>>
        [] e.op = "leave" ->
-            /\ st' = [st EXCEPT ![e.x] = 0]
+            /\ st' = [st EXCEPT ![e.x] = IF dep[e.x] = 0 THEN 0 ELSE @]
             /\ bad' = bad
             /\ Same(<<cap, batch, gen, openAt, returned, cnt, joinable, stopping, rds, beforeStop>>)
        [] e.op = "retire" ->
